@@ -3,10 +3,41 @@
 #ifndef TETL_CMATH_LOG1P_HPP
 #define TETL_CMATH_LOG1P_HPP
 
+#include <etl/_config/all.hpp>
+
 #include <etl/_3rd_party/gcem/gcem.hpp>
 #include <etl/_concepts/integral.hpp>
+#include <etl/_type_traits/is_constant_evaluated.hpp>
+#include <etl/_type_traits/is_same.hpp>
 
 namespace etl {
+
+namespace detail {
+
+template <typename T>
+[[nodiscard]] constexpr auto log1p(T arg) noexcept -> T
+{
+    if (not is_constant_evaluated()) {
+        if constexpr (is_same_v<T, float>) {
+#if __has_builtin(__builtin_log1pf)
+            return __builtin_log1pf(arg);
+#endif
+        }
+        if constexpr (is_same_v<T, double>) {
+#if __has_builtin(__builtin_log1p)
+            return __builtin_log1p(arg);
+#endif
+        }
+        if constexpr (is_same_v<T, long double>) {
+#if __has_builtin(__builtin_log1pl)
+            return __builtin_log1pl(arg);
+#endif
+        }
+    }
+    return detail::gcem::log1p(arg);
+}
+
+} // namespace detail
 
 /// \ingroup cmath
 /// @{
@@ -14,14 +45,14 @@ namespace etl {
 /// Computes the natural (base e) logarithm of 1+arg. This function is
 /// more precise than the expression etl::log(1+arg) if arg is close to zero.
 /// \details https://en.cppreference.com/w/cpp/numeric/math/log1p
-[[nodiscard]] constexpr auto log1p(float v) noexcept -> float { return etl::detail::gcem::log1p(v); }
-[[nodiscard]] constexpr auto log1pf(float v) noexcept -> float { return etl::detail::gcem::log1p(v); }
-[[nodiscard]] constexpr auto log1p(double v) noexcept -> double { return etl::detail::gcem::log1p(v); }
-[[nodiscard]] constexpr auto log1p(long double v) noexcept -> long double { return etl::detail::gcem::log1p(v); }
-[[nodiscard]] constexpr auto log1pl(long double v) noexcept -> long double { return etl::detail::gcem::log1p(v); }
+[[nodiscard]] constexpr auto log1p(float v) noexcept -> float { return etl::detail::log1p(v); }
+[[nodiscard]] constexpr auto log1pf(float v) noexcept -> float { return etl::detail::log1p(v); }
+[[nodiscard]] constexpr auto log1p(double v) noexcept -> double { return etl::detail::log1p(v); }
+[[nodiscard]] constexpr auto log1p(long double v) noexcept -> long double { return etl::detail::log1p(v); }
+[[nodiscard]] constexpr auto log1pl(long double v) noexcept -> long double { return etl::detail::log1p(v); }
 [[nodiscard]] constexpr auto log1p(integral auto arg) noexcept -> double
 {
-    return etl::detail::gcem::log1p(double(arg));
+    return etl::detail::log1p(double(arg));
 }
 
 /// @}
